@@ -23,9 +23,10 @@ PreOk == LET p == Tr[l].pre IN
 Ev(a) == l <= Len(Tr) /\ Tr[l].a = a /\ PreOk /\ l' = l + 1 /\ UNCHANGED tid
 TFeed == Ev("Feed") /\ Feed(Tr[l].k)
 TEof == Ev("Eof") /\ Eof
+TFeedEof == Ev("FeedEof") /\ FeedEof
 TEnd == Ev("End") /\ UNCHANGED vars
 Silent == Reader /\ UNCHANGED <<tid, l>>
-TNext == TFeed \/ TEof \/ TEnd \/ Silent
+TNext == TFeed \/ TEof \/ TFeedEof \/ TEnd \/ Silent
 TSpec == TInit /\ [][TNext]_tvars
 
 Mark == TLCSet(tid, Max2(TLCGet(tid), l))
